@@ -50,7 +50,6 @@ import (
 	"github.com/storacha/go-ucanto/ucan"
 	"github.com/storacha/go-ucanto/ucan/crypto/signature"
 	pdm "github.com/storacha/go-ucanto/ucan/datamodel/payload"
-	"github.com/storacha/go-ucanto/ucan/formatter"
 )
 
 type c18Rec struct {
@@ -171,7 +170,7 @@ func payloadString(d delegation.Delegation, alg string) (string, error) {
 		prf = append(prf, l.String())
 	}
 	p := pdm.PayloadModel{Iss: d.Issuer().DID().String(), Aud: d.Audience().DID().String(), Att: m.Att, Prf: prf, Exp: m.Exp, Fct: m.Fct, Nnc: m.Nnc, Nbf: m.Nbf}
-	return formatter.FormatSignPayload(p, d.Version(), alg)
+	return formatSignPayload(p, d.Version(), alg)
 }
 
 func verifierOf(s principal.Signer) principal.Verifier { return s.Verifier() }
